@@ -162,10 +162,14 @@ theorem parse_clock_independent (ty : Ty) (fields : List Field) (input : Bytes) 
   | error e => rfl
   | ok st =>
     simp only [bind, Except.bind]
-    by_cases hd : ty.info.HAS_DATE = true
-    · obtain ⟨_, _, hy, hm⟩ := parseFields_flags ty c2 fields _ st hp
-      have hy' := hy (hdate hd).1
-      have hm' := hm (hdate hd).2
-      simp only [hd, hy', hm', ↓reduceIte]
-    · simp only [hd, Bool.false_eq_true, ↓reduceIte]
+    have hdef : applyDefaults ty st c1 = applyDefaults ty st c2 := by
+      unfold applyDefaults
+      by_cases hd : ty.info.HAS_DATE = true
+      · obtain ⟨_, _, hy, hm⟩ := parseFields_flags ty c2 fields _ st hp
+        have hy' := hy (hdate hd).1
+        have hm' := hm (hdate hd).2
+        simp only [hd, hy', hm', ↓reduceIte]
+      · simp only [hd, Bool.false_eq_true, ↓reduceIte]
+    rw [hdef]
+
 end SqlDt.Lemmas
